@@ -16,6 +16,8 @@ Terms are nested tuples (hashable, comparable).  Values are never concrete data:
                                        snapshot of its free variables when it was created
   ("partial", f, args, kwargs)         functools.partial(f, *args, **kwargs)
   ("nt", class qualname, fields)       instance of a typing.NamedTuple class of the repository
+  ("obj", class qualname, site)        an instance of a plain class of the repository, created at
+                                       `site`; its attributes live in the path state (env["$heap"])
   ("gen", qualname, bindings)          a generator object: the call of a generator function that has
                                        not run yet; bindings = ((parameter, term), ...)
   ("excobj", classname)                a caught exception object
@@ -213,6 +215,7 @@ _ARITY = {
     "closure": 3,
     "partial": 4,
     "gen": 3,
+    "obj": 3,
     "nt": 3,
     "excobj": 2,
     "free": 2,
@@ -313,6 +316,8 @@ def show(t, depth=0):
         return "partial(%s)" % ", ".join([show(t[1], d)] + [show(x, d) for x in t[2]] + ["%s=%s" % (n, show(v, d)) for n, v in t[3]])
     if k == "nt":
         return "%s(%s)" % (t[1].split(".")[-1], ", ".join(show(x, d) for x in t[2]))
+    if k == "obj":
+        return "<%s object created at %s>" % (t[1].split(".")[-1], t[2].loc() if hasattr(t[2], "loc") else t[2])
     if k == "gen":
         return "<generator %s(%s)>" % (t[1], ", ".join("%s=%s" % (n, show(v, d)) for n, v in t[2]))
     return "(" + ", ".join(show(x, d) for x in t) + ")"
